@@ -66,6 +66,10 @@ pub struct Scenario {
     /// clear the transaction verification cache before every verify step (cold twin)
     #[serde(default)]
     pub verify_cache_cold: bool,
+    /// the first N first-time deliveries are handed over with Switch::DISABLE_SCRIPT, as the node
+    /// does for blocks before its assume-valid target during initial sync
+    #[serde(default)]
+    pub assume_valid_first: usize,
 }
 
 pub fn gen_cfg(r: &mut Rng) -> Cfg {
@@ -345,6 +349,7 @@ pub fn generate_c07(seed: u64) -> Scenario {
         freezer: false,
         store_caches: None,
         verify_cache_cold: false,
+        assume_valid_first: 0,
     }
 }
 
@@ -569,5 +574,6 @@ pub fn generate(seed: u64, prop: &str) -> Scenario {
             _ => None,
         },
         verify_cache_cold: false,
+        assume_valid_first: if prop == "C14" && r.chance(1, 3) { r.urange(3, 25) } else { 0 },
     }
 }
